@@ -333,14 +333,15 @@ def miri_requests(shard_no, nshards, seed):
     ops = ["mul", "div", "sdiv", "mod", "smod", "exp", "shl", "shr", "sar", "add", "sub"]
     trees = []
     idx = 0
-    small = [0, 1, 2, 255, 256, 257, 1 << 32, 1 << 64, 1 << 255, te.MASK, te.SIGN, te.SIGN + 1, 31, 8]
+    # (sized for ~10 minutes per shard on an idle machine: every fold is done twice since the typed-tree fold was added)
+    small = [0, 1, 2, 255, 256, 1 << 32, 1 << 64, 1 << 255, te.MASK, te.SIGN + 1, 8]
     for op in ops:
         for a in small:
             for b in small:
                 idx += 1
                 if idx % nshards == shard_no:
                     trees.append([op, te.const(a), te.const(b)])
-    for _ in range(20):
+    for _ in range(12):
         trees.append(rand_tree(rng, B, rng.randint(2, 4), 3))
     return [{"op": "batch", "reqs": [{"op": "fold", "tree": t} for t in trees[i:i + 40]]} for i in range(0, len(trees), 40)]
 
